@@ -37,7 +37,9 @@ ASSUMPTIONS = [
 BUDGET = {"quick": (16, 350), "thorough": (16, 8000)}
 
 COMPONENTS = [".", "..", "in.bin", "sub", "sub/in2.bin", "", "link_in", "link_out", "dlink_in", "dlink_out", "hard_in", "hard_out",
-              "nope.bin", "..", "../outside", "canary.bin", "../base_evil", "evil.bin", "dirfile", "in.bin/", "sub/..", "ABS_OUT", "ABS_IN", "ABS_BASE"]
+              "nope.bin", "..", "../outside", "canary.bin", "../base_evil", "evil.bin", "dirfile", "in.bin/", "sub/..", "ABS_OUT", "ABS_IN", "ABS_BASE",
+              # '..' right after a directory symlink: lexical normalisation and the file system disagree about where this leads
+              "dlink_out/..", "dlink_out/../canary.bin", "dlink_in/..", "dlink_in/../in.bin", "dlink_out/../base/in.bin", "dlink_out/odir/../canary.bin"]
 BASES = ["abs", "rel", "abs_slash", "via_symlink", "dotdot", "dot", "rel_dotslash", "abs_unnorm"]
 ENTRIES = ["numpy", "__array__", "tobytes", "tofile_bytesio", "tofile_file", "lazy", "load_to_model", "save"]
 # where the external tensor sits in the loaded model
